@@ -106,7 +106,7 @@ class StreamProp(E2Prop):
 class C02(StreamProp):
     id = 'C02'
     rule = ('grammar-generated frame sequences (fragmentation depth 1-4, interleaved controls, non-minimal lengths, both roles, accept_unmasked on/off), '
-            'the same with one of 20 rule violations injected, optional Close; every case compared with an independent RFC 6455 decoder; distinct by trace')
+            'the same with one of %d rule violations injected, optional Close, the exhaustive single-frame alphabet (opcode x FIN x size {0,1,125,126} x RSV x right/wrong mask) per role; every case compared with an independent RFC 6455 decoder; distinct by trace' % len(gen_streams.VIOLATIONS))
     level_text = 'read refines an independent declarative RFC 6455 decoder (theorem over all byte streams/schedules); model tied by differential streams incl. every rule violation'
     level_note = 'Trusted: Coq kernel, Protocol.v/Codec.v/Utf8.v, the RFC spec decoder in Coq (short, auditable), correspondence generators'
     def generate(self, tier, rng):
@@ -164,7 +164,8 @@ class C06(StreamProp):
     id = 'C06'
     impl_only_kinds = ('EP', 'SI')
     rule = ('(max_frame_size, max_message_size, read_buffer_size) over {0,1,2,5,125,126,1000}^2 x {0,64,4096} x fragment patterns with sizes limit-1/limit/limit+1, '
-            'text with a split code point at the limit, announced lengths up to 2^64-1 with no payload; compared with the independent decoder with the same limits')
+            'text with a split code point at the limit, announced lengths up to 2^64-1 with no payload; compared with the independent decoder with the same limits; '
+            'limits installed by set_config (at time zero and in the middle of a fragmented message; implementation-only cases, monitor only), every config setter/field pair; counting allocator on reads')
     level_text = 'frame/message bounds, capacity errors, reject-before-payload and reserve bound proved on the model for all limits and lengths < 2^64; physical heap use is a runtime fact (partial)'
     level_note = 'Trusted: Coq kernel, Codec.v/Message.v; allocator behaviour is outside the model'
     partial = 'physical heap use (BytesMut/Vec growth, allocator) cannot be exhibited by the model'
@@ -251,7 +252,8 @@ class C06(StreamProp):
 class C08(StreamProp):
     id = 'C08'
     rule = ('from_utf8 vs model: all byte strings of length <= 2 and length 3-4 over a 24-letter alphabet of byte-class representatives (exhaustive in thorough), random longer; '
-            'fragmented text through read: boundary scalars and every invalid form x cuts into <= 4 fragments; delivered text checked with Python bytes.decode')
+            'fragmented text through read: boundary scalars and every invalid form x cuts into <= 4 fragments; delivered text checked with Python bytes.decode; '
+            'MA: Message/Frame accessor API (is_*, len, is_empty, into_data, into_text, to_text, Display, From/TryFrom conversions) on valid/invalid payloads of every message kind and raw frames at the length-form boundaries')
     level_text = 'from_utf8 model = Unicode Table 3-7 grammar; collector accepts iff the concatenation is valid, wherever the cuts fall; every text reachable through read is valid (theorems); model of std::str::from_utf8 tied by exhaustive small strings'
     level_note = 'Trusted: Coq kernel, Utf8.v (model of std + utf-8 0.7.6), correspondence'
     ALPHA = [0x00, 0x41, 0x7f, 0x80, 0x8f, 0x90, 0x9f, 0xa0, 0xbf, 0xc0, 0xc1, 0xc2, 0xdf, 0xe0, 0xe1, 0xec, 0xed, 0xee, 0xef, 0xf0, 0xf1, 0xf3, 0xf4, 0xf5]
@@ -297,8 +299,61 @@ class C08(StreamProp):
                         role = 'c' if k % 2 else 's'
                         frames = [gen_e2.peer_frame(role, 1 if i == 0 else 0, p_, fin=(i == len(parts) - 1)) for i, p_ in enumerate(parts)]
                         out.append(gen_streams.reader_case('t%d' % k, role, [b''.join(frames)], 3)); k += 1
+        out += self.message_api_cases(quick, rng, k)
         return out
+    def message_api_cases(self, quick, rng, k):
+        """MA: the accessor/conversion API of Message and Frame (len, is_*, into_data, into_text, to_text, Display, From impls)"""
+        out = []
+        pays = [b'', b'a', 'h\u00e9'.encode(), '\u20ac'.encode(), '\U0001F600'.encode()] + gen_streams.BAD_UTF8 + [b'ok' + b for b in gen_streams.BAD_UTF8] + \
+               [b'\xff' * n for n in (9, 10, 11, 99, 100, 101, 125, 126, 999, 1000, 65535, 65536)] + [b'z' * n for n in (125, 126, 65535, 65536)]
+        if not quick:
+            pays += [bytes(t) for n in (1, 2, 3) for t in itertools.product(self.ALPHA, repeat=n)]
+        else:
+            pays += [bytes(rng.choice(self.ALPHA) for _ in range(rng.randint(1, 6))) for _ in range(300)]
+        for p_ in pays:
+            for kind in ('B', 'PI', 'PO'):
+                out.append('MA m%d %s %s' % (k, kind, ws.hx(p_))); k += 1
+            if ws.is_utf8(p_):
+                out.append('MA m%d T %s' % (k, ws.hx(p_))); k += 1
+                if len(p_) <= 123:
+                    out.append('MA m%d C %d %s' % (k, rng.choice([1000, 1001, 1005, 3000, 4999, 0, 65535]), ws.hx(p_))); k += 1
+            for flags, opc, mask in (('1000', 1, '-'), ('0000', 2, '01020304'), ('1111', 9, '-'), ('1000', 8, 'ffffffff'), ('0100', 0, '-')):
+                if len(p_) <= 1000 or opc == 1:
+                    out.append('MA m%d F %s %d %s %s' % (k, flags, opc, mask, ws.hx(p_))); k += 1
+        out.append('MA m%d C - -' % k); k += 1
+        return out
+    @staticmethod
+    def mon_message_api(case_line, trace):
+        f = case_line.split(' ')
+        kind = f[2]
+        t = trace.split(':')
+        if len(t) != 9:
+            return 'message-api: unexpected answer %s' % trace[:60]
+        flags, ln, empty, data, it, tt, disp, frm, ctor = t
+        payload = ws.unhx(f[6] if kind == 'F' else f[4] if kind == 'C' else f[3])
+        exp_flags = {'T': '10000', 'B': '01000', 'PI': '00100', 'PO': '00010', 'C': '00001', 'F': '00000'}[kind]
+        if flags != exp_flags:
+            return 'message-api: is_* flags %s for kind %s' % (flags, kind)
+        n = len(payload)
+        if kind == 'F':
+            n += 2 + (0 if n < 126 else 2 if n < 65536 else 8) + (0 if f[5] == '-' else 4)
+        if int(ln) != n or (empty == '1') != (n == 0):
+            return 'message-api: len()/is_empty() = %s/%s, expected %d' % (ln, empty, n)
+        if ws.unhx(data) != payload or ws.unhx(frm) != payload:
+            return 'message-api: into_data / Bytes::from returned other bytes than the payload'
+        valid = ws.is_utf8(payload)
+        exp_t = ('ok=' + ws.hx(payload)) if valid else 'err'
+        if it != exp_t or tt != exp_t:
+            return 'message-api: into_text/to_text = %s/%s on %s payload' % (it[:20], tt[:20], 'valid' if valid else 'invalid')
+        exp_d = payload if valid else ('Binary Data<length=%d>' % n).encode()
+        if ws.unhx(disp) != exp_d:
+            return 'message-api: Display printed %r' % ws.unhx(disp)[:40]
+        if ctor != '1':
+            return 'message-api: constructors / Utf8Bytes conversions disagree'
+        return None
     def monitor(self, case_line, trace, mline):
+        if case_line.startswith('MA '):
+            return self.mon_message_api(case_line, trace)
         if case_line.startswith('U8 '):
             b = ws.unhx(case_line.split(' ')[2])
             try:
